@@ -76,7 +76,8 @@ def check_map_case(rep, case, traces, counters):
     # ---- code -> spec: the real writer on the bare contents ----------------------------------------------
     counters["write"] += 1
     text, why = _refusal(gb.write_map, g, want)
-    ev = {"id": "w%d" % len(traces), "k": "write", "g": g, "cells": case["S"], "refused": text is None,
+    cls = "complete" if case["complete"] else "holes" if case["dense"] else "sparse"
+    ev = {"id": "w%d" % len(traces), "k": "write", "g": g, "cls": cls, "cells": case["S"], "refused": text is None,
           "lines": [] if text is None else gb.text_to_lines(text), "why": why or ""}
     traces.append(ev)
     if text is None:
@@ -107,13 +108,13 @@ def check_map_case(rep, case, traces, counters):
                               {"direction": "replay", "part": "gridmap", "case": case, "yaml": y})
             continue
         lines = gb.saved_map_lines(saved, "core")
-        traces.append({"id": "s%d" % len(traces), "k": "save", "geom": geom, "dom": dom, "cells": d["cells"], "refused": lines is None,
+        traces.append({"id": "s%d" % len(traces), "k": "save", "geom": geom, "dom": dom, "cls": cls, "cells": d["cells"], "refused": lines is None,
                        "lines": lines or [], "yaml": y, "saved": saved})
         g2 = gb.load_grids(saved)
         g2["core"].construct()
         got2 = {tuple(k): v for k, v in g2["core"].gridContents.items()}
         if got2 != wantg:
-            rep.violation("grid:resave:%s:%s" % (geom, dom), "grid design (%s, %s) read from a lattice map, saved and read again gives other contents: %s -> %s" % (
+            rep.violation("save:%s:%s:%s" % (geom, dom, cls), "grid design (%s, %s) read from a lattice map, saved and read again gives other contents: %s -> %s" % (
                 geom, dom, gb.cells_seq(wantg), gb.cells_seq(got2)),
                 {"direction": "replay", "part": "gridmap", "case": case, "yaml": y, "saved": saved, "expected": gb.cells_seq(wantg), "observed": gb.cells_seq(got2)})
 
@@ -277,13 +278,16 @@ def check_document(rep, p, counters, twice):
         return
     if twice:
         counters["twice"] += 1
-        proj2 = gb.project_reactor(gb.build_reactor(text))
+        try:
+            proj2 = gb.project_reactor(gb.build_reactor(text))
+        except Exception as ex:  # noqa: BLE001
+            proj2 = {"exception": "%s: %s" % (type(ex).__name__, str(ex)[:200])}
         if json.dumps(proj, sort_keys=True) != json.dumps(proj2, sort_keys=True):
             rep.violation("determinism:%s" % fam, "building the same blueprint text twice gives different reactors: %s" % rp.diff(proj, proj2, rtol=0, atol=0),
                           dict(payload, first=proj, second=proj2))
 
 
-CAP = {"quick": 300, "thorough": 6000}  # documents built per family (all of them when fewer are emitted)
+CAP = {"quick": 300, "thorough": 2500}  # documents built per family (all of them when fewer are emitted)
 
 
 def sample_documents(docs, cap, rng):
@@ -333,7 +337,7 @@ def run_blueprints(rep, tier, seed):
         if not verdicts.get(v):
             raise tlc.MachineryError("vacuous: no emitted document has verdict %s" % v)
     counters = {"built": 0, "refusals": 0, "twice": 0}
-    every = 2 if thorough else 5
+    every = 3 if thorough else 5
     chosen = sample_documents(docs, 120 if _SELFTEST else CAP[tier], random.Random(seed))
     for k, p in enumerate(chosen):
         check_document(rep, p, counters, twice=(k % every == 0))
@@ -353,26 +357,38 @@ def run_blueprints(rep, tier, seed):
 # ------------------------------------------------------------------------------------------------------------
 def run(rep, tier, seed):
     armi_ready()
-    tlc.sany("AsciiMap_mc", MODDIR)
-    tlc.sany("AsciiMap_trace", MODDIR)
+    gb.quiet()
+    if not _SELFTEST:
+        for m in ("AsciiMap_mc", "AsciiMap_trace", "Blueprint_mc"):
+            tlc.sany(m, MODDIR)
     rep.exhaustive = True
     run_asciimap(rep, tier, seed)
-    tlc.sany("Blueprint_mc", MODDIR)
     run_blueprints(rep, tier, seed)
+    rep.assume(
+        "a text map is a picture of the lattice in armi's own grid coordinates (rows = equal Y, top first; tokens = increasing X); the drawing "
+        "regions (quadrant, first third without the 120-degree edge, left-padded hexagons) are transcribed from the asciimaps docstrings",
+        "a writer may refuse (raise) any contents except the complete map of a geometry; any exception counts as a refusal",
+        "default case settings (inputHeightsConsideredHot, uniform axial mesh: block tops must lie on the mesh of the first longest assembly)",
+        "documents avoid: cyclic links, cells on the 120-degree edge of a third core, elemental custom isotopics, component groups; "
+        "pin areas are compared with the block's room by integer bounds and only clear cases are generated",
+        "flags of a name = its words that are flag names; lengths in 0.01 cm; compositions in weight-free units "
+        "(number densities, mass density per nuclide = N*A/0.6022, fractions), rtol 1e-9",
+        "quick builds at most %d documents per family (seeded, stratified by last edit and verdict), thorough %d" % (CAP["quick"], CAP["thorough"]),
+    )
 
 
 def _validate_writer_records(rep, traces):
-    slim = [{k: v for k, v in t.items() if k not in ("why", "yaml", "saved")} for t in traces]
+    slim = [{k: v for k, v in t.items() if k not in ("why", "yaml", "saved", "cls")} for t in traces]
     bad, stats = tracecheck.validate("AsciiMap_trace", "AsciiMap_trace.cfg", MODDIR, slim, timeout=1500)
     byid = {t["id"]: t for t in traces}
     for b in bad:
         t = byid.get(b["trace"]["id"], b["trace"])
         if t.get("k") == "write":
-            key = "trace:write:%s" % t["g"]
+            key = "trace:write:%s:%s" % (t["g"], t.get("cls", ""))
             what = "%s.gridContentsToAscii drew contents %s incompletely / wrongly as %r (neither refused nor a text that denotes them)" % (
                 gb.MAP_CLASS[t["g"]], t["cells"], gb.lines_to_text(t["lines"], indent=False))
         else:
-            key = "trace:save:%s:%s" % (t.get("geom"), t.get("dom"))
+            key = "save:%s:%s:%s" % (t.get("geom"), t.get("dom"), t.get("cls", ""))
             what = "saveToStream wrote the grid (%s, %s) holding %s as the map %r, which does not denote it" % (
                 t.get("geom"), t.get("dom"), t.get("cells"), gb.lines_to_text(t.get("lines", []), indent=False))
         rep.violation(key, what + " " + json.dumps(b.get("mismatch", ""))[:400], {"direction": "trace", "part": "asciimap", "record": t})
@@ -464,8 +480,25 @@ def selftest():
             kw["mult"] = 1
         return kw
 
-    def no_negative_area_check(self, area, cold):
+    def no_negative_area_check(self, *a):
         return None
+
+    import contextlib
+
+    @contextlib.contextmanager
+    def overlap_checks_off():
+        with P(Component, "_checkNegativeArea", no_negative_area_check), P(Component, "_checkNegativeVolume", no_negative_area_check):
+            yield
+
+    def tips_write_shifted(self, columnNum, lineNum):
+        iBase, jBase = self._getIJBaseByAsciiLine(lineNum)
+        return self._getIJFromColAndBase(columnNum + (1 if lineNum == 1 else 0), iBase, jBase)
+
+    def trailing_placeholders_kept_off_by_one(line):
+        out = list(line)
+        while len(out) > 1 and out[-1] == asciimaps.PLACEHOLDER:
+            out.pop()
+        return out[:-1] if len(out) > 2 and out[-2] == asciimaps.PLACEHOLDER else out
 
     # -- assembly stacking ----------------------------------------------------------------------------------------
     orig_create = assemblyBlueprint.AssemblyBlueprint._createBlock
@@ -504,7 +537,7 @@ def selftest():
 
     def third_base_wrong_ray(self, n):
         i, j = orig_third_base(self, n)
-        return (i + 2, j - 1) if (n - 1) % 3 == 2 and n > 3 else (i, j)
+        return (i + 2, j - 1) if (n - 1) % 3 == 2 else (i, j)
 
     def tips_base_shifted(self, n):
         shift = self._ijMax
@@ -572,7 +605,9 @@ def selftest():
         ("dimension links: `id` links resolve to another component", lambda: P(Component, "resolveLinkedDims", links_first_component)),
         ("Tinput / Thot swapped for pins", lambda: P(CB, "_conformKwargs", conform_swaps_temperatures)),
         ("a linked mult is ignored (mult 1)", lambda: P(CB, "_conformKwargs", conform_ignores_mult_link)),
-        ("negative-area (overlap) check disabled", lambda: P(Component, "_checkNegativeArea", no_negative_area_check)),
+        ("negative area / volume (overlap) checks disabled", overlap_checks_off),
+        ("corners-up map WRITER: second row shifted one column", lambda: P(asciimaps.AsciiMapHexFullTipsUp, "_getIJFromColRow", tips_write_shifted)),
+        ("map writer drops the last entry after an inner placeholder", lambda: P(asciimaps.AsciiMap, "_removeTrailingPlaceholders", staticmethod(trailing_placeholders_kept_off_by_one))),
         ("block heights applied in reversed order", lambda: P(AB, "_createBlock", create_block_heights_reversed)),
         ("xs type list shifted by one block", lambda: P(AB, "_createBlock", create_block_xs_shifted)),
         ("list-length consistency check disabled", lambda: P(AB, "_checkParamConsistency", param_consistency_off)),
